@@ -691,6 +691,9 @@ func c18ExecHTTP(x *hysim.Run) {
 		w.waitFor(30, func() bool { return w.origins == 0 })
 		x.Probe("origin-connection-outlived-idle-close")
 	}
+	if al := x.WaitTasks(30 * time.Second); len(al) != 0 {
+		x.Violate("goroutine-leak", "harness tasks still alive at the end of the run: %v", al)
+	}
 }
 
 func (w *c18HWorld) one(s *Server, c *c18HConn) {
